@@ -11,14 +11,45 @@ import (
 	"fmt"
 	"io"
 	"net"
+	"net/http"
+	"strconv"
 	"sync"
 	"time"
 
+	"github.com/relex/gotils/channels"
 	"github.com/relex/gotils/logger"
+	"github.com/relex/gotils/promexporter/promreg"
 	"github.com/relex/slog-agent/base"
 	"github.com/relex/slog-agent/output/baseoutput"
+	"github.com/relex/slog-agent/output/datadog"
 	"github.com/relex/slog-agent/output/fluentdforward"
 )
+
+// c02WrapperOpener returns the connection opener that fluentdforward.NewClientWorker / datadog.NewClientWorker
+// hand to baseoutput.NewClientWorker (taken from a worker that is never started), and the max session duration.
+func c02WrapperOpener(flavor int, addr string) (baseoutput.EstablishConnectionFunc, time.Duration) {
+	closed := channels.NewSignalAwaitable()
+	args := base.ChunkConsumerArgs{InputChannel: make(chan base.LogChunk), InputClosed: closed,
+		OnChunkConsumed: func(base.LogChunk) {}, OnChunkLeftover: func(base.LogChunk) {}, OnFinished: func() {}}
+	c02SerialMu.Lock()
+	c02Serial++
+	mf := promreg.NewMetricFactory(fmt.Sprintf("c02d%d_", c02Serial), nil, nil)
+	c02SerialMu.Unlock()
+	var worker base.ChunkConsumer
+	if flavor == 3 {
+		worker = datadog.NewClientWorker(logger.WithField("c02", "datadog"), args, mf,
+			datadog.UpstreamConfig{Address: "http://" + addr + "/v2/logs", HTTPTimeout: c02SendTimeout})
+	} else {
+		worker = fluentdforward.NewClientWorker(logger.WithField("c02", "fluentd"), args,
+			fluentdforward.UpstreamConfig{Address: addr, MaxDuration: time.Hour}, mf)
+	}
+	closed.Signal() // the abort-on-stop goroutine of the unused worker ends
+	op := baseoutput.VerifOpener(worker)
+	if op == nil {
+		panic("c02: the output wrapper is not a baseoutput.ClientWorker any more")
+	}
+	return op, time.Duration(baseoutput.VerifMaxDuration(worker))
+}
 
 // additional answers of the fake server to a received chunk
 const (
@@ -68,8 +99,8 @@ func c02LearnPing() {
 			}
 			got <- all
 		}()
-		conn, err := fluentdforward.VerifOpenForwardConnection(logger.WithField("c02", "ping-probe"),
-			fluentdforward.UpstreamConfig{Address: ln.Addr().String()})
+		op, _ := c02WrapperOpener(2, ln.Addr().String())
+		conn, err := op()
 		if err != nil {
 			panic(err)
 		}
@@ -88,7 +119,9 @@ func c02LearnPing() {
 type c02Fluentd struct {
 	w      *c02World
 	ln     net.Listener
-	dead   string // an address on which nothing listens
+	live   baseoutput.EstablishConnectionFunc // the wrapper's opener for the fake server
+	dead   baseoutput.EstablishConnectionFunc // ... for an address on which nothing listens
+	srv    *http.Server                       // flavour 3
 	mu     sync.Mutex
 	conns  []net.Conn
 	nChunk int
@@ -106,12 +139,43 @@ func c02NewFluentd(w *c02World) *c02Fluentd {
 	}
 	dead := d.Addr().String()
 	d.Close()
-	f := &c02Fluentd{w: w, ln: ln, dead: dead}
-	go f.acceptLoop()
+	f := &c02Fluentd{w: w, ln: ln}
+	f.live, _ = c02WrapperOpener(w.scn.Flavor, ln.Addr().String())
+	f.dead, _ = c02WrapperOpener(w.scn.Flavor, dead)
+	if w.scn.Flavor == 3 {
+		f.srv = &http.Server{Handler: http.HandlerFunc(f.serveHTTP)}
+		go func() { _ = f.srv.Serve(ln) }()
+	} else {
+		go f.acceptLoop()
+	}
 	return f
 }
 
+// serveHTTP is the fake Datadog intake: the body of a request is the chunk id.
+func (f *c02Fluentd) serveHTTP(rw http.ResponseWriter, rq *http.Request) {
+	_, _ = io.ReadAll(rq.Body)
+	f.mu.Lock()
+	out := c02At(f.w.scn.Send, f.nChunk)
+	f.nChunk++
+	f.mu.Unlock()
+	switch out {
+	case cSendErr:
+		rw.WriteHeader(http.StatusServiceUnavailable)
+		_, _ = rw.Write([]byte("scripted refusal " + strconv.Itoa(f.nChunk)))
+	case cSendBlock:
+		select {
+		case <-f.w.endCh:
+		case <-rq.Context().Done():
+		}
+	default:
+		rw.WriteHeader(http.StatusAccepted)
+	}
+}
+
 func (f *c02Fluentd) shutdown() {
+	if f.srv != nil {
+		_ = f.srv.Close()
+	}
 	f.ln.Close()
 	f.mu.Lock()
 	for _, c := range f.conns {
@@ -275,11 +339,11 @@ func (w *c02World) openReal() (baseoutput.ClosableClientConnection, error) {
 		case <-w.endCh:
 		}
 	}
-	addr := w.fluentd.ln.Addr().String()
-	if out == cConnErr || out == cConnBlockErr {
-		addr = w.fluentd.dead
+	op := w.fluentd.live
+	if (out == cConnErr || out == cConnBlockErr) && w.scn.Flavor == 2 {
+		op = w.fluentd.dead
 	}
-	conn, err := fluentdforward.VerifOpenForwardConnection(logger.WithField("c02conn", k), fluentdforward.UpstreamConfig{Address: addr})
+	conn, err := op()
 	w.mu.Lock()
 	defer w.mu.Unlock()
 	if err != nil {
